@@ -35,7 +35,7 @@ ALPHA = "abcdefghijklmnopqrstuvwxyzABCDEFGHIJKLMNOPQRSTUVWXYZ0123456789_"
 
 def plan(tier, seed):
     q = tier == "quick"
-    return [{"kind": "rt", "i": i, "count": 30 if q else 700} for i in range(16 if q else 32)]
+    return [{"kind": "rt", "i": i, "count": 120 if q else 700} for i in range(16 if q else 32)]
 
 
 def rand_names(rng, n, style):
